@@ -199,6 +199,15 @@ class Scenario:
     def want(self, hook):
         return True
 
+    replace_attr = None  # name of the flow attribute holding the intercepted message object (request/response), if any
+
+    def replace(self):
+        """the held message OBJECT is replaced (an addon assigns a new message, or the UI's edit -> revert re-creates
+        it through set_state), and the replacement carries the edit: on resume the flow's current message must be sent"""
+        attr = self.replace_attr() if callable(self.replace_attr) else self.replace_attr
+        setattr(self.flow, attr, getattr(self.flow, attr).copy())
+        self.edit()
+
     def dest(self):
         raise NotImplementedError
 
@@ -263,6 +272,9 @@ class Http1(Scenario):
         elif a == "server-close":
             self.closed_meanwhile = True
             d.close(d.opened[0])
+
+    def replace_attr(self):
+        return self.which
 
     def edit(self):
         if self.which == "request":
@@ -415,6 +427,7 @@ class Dns(Scenario):
     target = "dns_request"
     error_hook = "dns_error"
     name = "dns"
+    replace_attr = "request"
 
     def __init__(self, X):
         super().__init__(X)
@@ -593,6 +606,9 @@ class Http2(Scenario):
             self.d.close(self.d.opened[0])
             self.pump()
 
+    def replace_attr(self):
+        return self.which
+
     def edit(self):
         if self.which == "request":
             self.flow.request.content = EDIT
@@ -636,12 +652,16 @@ def h_hold(X, proto, K):
         X.check(_count(S.dest(), mk(MARK)) == 0, f"C11/{name}/leak-while-intercepted", f"after '{a}' the intercepted message reached its destination: {S.dest()!r}")
         if S.opaque:
             X.check(_count(S.dest(), mk(MARK2)) == 0, f"C11/{name}/overtaken-while-intercepted", f"later data of the same flow overtook the intercepted message: {S.dest()!r}")
-    res = X.choose("resolution", ["resume", "edit", "kill"])
+    res = X.choose("resolution", ["resume", "edit", "kill"] + (["edit-replaced"] if S.replace_attr is not None else []))
     flow = S.flow
     hooks_before = len(S.d.hook_names)
     before = S.dest()
     if res == "edit":
         S.edit()
+    if res == "edit-replaced":
+        S.replace()
+        X.reach("message-object-replaced")
+        res = "edit"
     if res == "kill":
         if not flow.killable:
             X.reach("not-killable")
